@@ -1,0 +1,105 @@
+//go:build verif
+
+// Contracts for package reader, read by /verif's VC generator (govc). Comment-only.
+package reader
+
+// A-SCAN (assumed token contract of github.com/jig/scanner v1.2.0): a String token is
+// delimited by double quotes, a RawString token is either the lone opening quote at end
+// of input or delimited by the two-byte raw quote on both sides, a Keyword token has
+// its one-byte prefix. Assumed wherever a Token is read; tokens are only built by tokenize.
+//@ invariant Token(t) = implies(t.Type == scanner.String, len(t.Value) >= 2) && implies(t.Type == scanner.RawString, t.Value == "¬" || len(t.Value) >= 4) && implies(t.Type == scanner.Keyword, len(t.Value) >= 1)
+
+// A token reader is a cursor into an immutable token array.
+//@ spec validReader(r *tokenReader) bool = r != nil && 0 <= r.position && r.position <= len(r.tokens)
+//@ spec remaining(r *tokenReader) int = len(r.tokens) - r.position
+
+//@ func (*tokenReader).next(tr) (r)
+//@   requires validReader(tr)
+//@   panics never
+//@   assigns comp:cell:reader_tokenReader
+//@   ensures validReader(tr) && tr.tokens == old(tr.tokens)
+//@   ensures (r == nil) == (old(tr.position) >= len(old(tr.tokens)))
+//@   ensures implies(r != nil, tr.position == old(tr.position) + 1)
+//@   ensures implies(r == nil, tr.position == old(tr.position))
+
+//@ func (*tokenReader).peek(tr) (r)
+//@   requires validReader(tr)
+//@   panics never
+//@   assigns nothing
+//@   ensures (r == nil) == (tr.position >= len(tr.tokens))
+
+// the recursive-descent functions: never panic, leave a valid cursor that only moves
+// forward, and terminate (lexicographic measure: remaining tokens, then a rank).
+//@ func read_form(rdr, placeholderValues, ns) (r, e)
+//@   requires validReader(rdr)
+//@   requires ns == nil || validEnvVal(ns)
+//@   panics never
+//@   decreases remaining(rdr), 3
+//@   ensures validReader(rdr) && rdr.tokens == old(rdr.tokens) && rdr.position >= old(rdr.position)
+//@   ensures implies(e == nil, rdr.position > old(rdr.position))
+
+//@ func read_list(rdr, start, end, placeholderValues, ns) (r, e)
+//@   requires validReader(rdr)
+//@   requires ns == nil || validEnvVal(ns)
+//@   panics never
+//@   decreases remaining(rdr), 1
+//@   loop 1 invariant validReader(rdr) && rdr.tokens == old(rdr.tokens) && rdr.position >= old(rdr.position) + 1
+//@   loop 1 decreases remaining(rdr)
+//@   ensures validReader(rdr) && rdr.tokens == old(rdr.tokens) && rdr.position >= old(rdr.position)
+//@   ensures implies(e == nil, rdr.position > old(rdr.position))
+//@   ensures implies(e == nil, is(r, List))
+
+//@ func read_vector(rdr, placeholderValues, ns) (r, e)
+//@   requires validReader(rdr)
+//@   requires ns == nil || validEnvVal(ns)
+//@   panics never
+//@   decreases remaining(rdr), 2
+//@   ensures validReader(rdr) && rdr.tokens == old(rdr.tokens) && rdr.position >= old(rdr.position)
+//@   ensures implies(e == nil, rdr.position > old(rdr.position))
+
+//@ func read_hash_map(rdr, placeholderValues, ns) (r, e)
+//@   requires validReader(rdr)
+//@   requires ns == nil || validEnvVal(ns)
+//@   panics never
+//@   decreases remaining(rdr), 2
+//@   ensures validReader(rdr) && rdr.tokens == old(rdr.tokens) && rdr.position >= old(rdr.position)
+//@   ensures implies(e == nil, rdr.position > old(rdr.position))
+
+//@ func read_set(rdr, placeholderValues, ns) (r, e)
+//@   requires validReader(rdr)
+//@   requires ns == nil || validEnvVal(ns)
+//@   panics never
+//@   decreases remaining(rdr), 2
+//@   ensures validReader(rdr) && rdr.tokens == old(rdr.tokens) && rdr.position >= old(rdr.position)
+//@   ensures implies(e == nil, rdr.position > old(rdr.position))
+
+//@ func read_external(rdr, placeholderValues, ns) (r, e)
+//@   requires validReader(rdr)
+//@   requires ns == nil || validEnvVal(ns)
+//@   panics never
+//@   decreases remaining(rdr), 2
+//@   ensures validReader(rdr) && rdr.tokens == old(rdr.tokens) && rdr.position >= old(rdr.position)
+//@   ensures implies(e == nil, rdr.position > old(rdr.position))
+
+//@ func read_placeholder(rdr, placeholderValues, ns) (r, e)
+//@   requires validReader(rdr) && rdr.position < len(rdr.tokens)
+//@   assigns comp:cell:reader_tokenReader
+//@   panics never
+//@   ensures validReader(rdr) && rdr.tokens == old(rdr.tokens) && rdr.position >= old(rdr.position)
+//@   ensures implies(e == nil, rdr.position > old(rdr.position))
+
+//@ func read_atom(rdr) (r, e)
+//@   requires validReader(rdr) && rdr.position < len(rdr.tokens)
+//@   assigns comp:cell:reader_tokenReader
+//@   panics never
+//@   ensures validReader(rdr) && rdr.tokens == old(rdr.tokens) && rdr.position >= old(rdr.position)
+//@   ensures implies(e == nil, rdr.position > old(rdr.position))
+
+//@ func tokenize(sourceCode, cursor) (r, e)
+//@   requires cursor != nil
+//@   panics never
+
+//@ func Read_str(str, cursor, placeholderValues, ns) (r, e)
+//@   requires len(ns) == 0 || ns[0] == nil || validEnvVal(ns[0])
+//@   panics never
+//@   at "cursor = NewCursorFile(matches[1])" assume len(matches) == 2
